@@ -28,6 +28,7 @@ func init() {
 			"D-order — in diskpacked.(*storage).append the index Set is behind the success edges of writer.Sync(), which is behind the success edges of every data write into s.writer (header and body) and behind the written-count == br.Size test; every maybe-nil return is behind the Set's success edge. In diskpacked.ReceiveBlob the duplicate-ack return (the only nil-error return that is not append's verdict) is behind {meta found, os.Stat(filename(m.file)) ok, fi.Size() >= m.offset+m.size}. " +
 			"D-reindex-agreement — the header writer in append (constant format: open delimiter, ref, separator, size, close delimiter; size printed base-10 from a 32-bit unsigned) and the three header readers (walkPack, readHeader, delete) use the same three delimiter bytes, base 10 and 32 bits, and delete's walk-back length counts exactly the literal bytes of the format; the deleted-marker regexp matches exactly what delete writes (and no real blobref) and both pack walkers consult it; index rows are written by append and by reindex through the same codec (blob.Ref.String → blobMeta.String) and parseBlobMeta reads the same fields in the same order. " +
 			"D-dele-order — in diskpacked.delete the header is rewritten to the deleted marker (WriteAt succeeded) before the body is destroyed (punch hole / zero fill), so a pack walk never reports a live header over a destroyed body; RemoveBlobs commits the index deletions only after all delete workers were joined (delete reads the row it is about to lose). " +
+			"D-walk-extent — a pack walker reports an entry (walkPack calls its walker / StreamBlobs sends) only where a read of the header's declared size succeeded or the extent was compared with the pack file's size, i.e. a header whose body was torn by a crash is not reported as a blob. " +
 			"NOT decided: torn writes and what a particular crash image looks like, fsync/rename semantics of the OS or of a remote VFS (sftp's Sync is a no-op), directory fsync, durability of the KV index file, what HashName()/Digest() may contain, recovery behaviour (re-opening a pack with a torn tail, Reindex on it), removal crash states (index row still present over a zeroed body), equality of fetched bytes with received bytes.",
 		RuleDocs: map[string]string{
 			"F-order":             "files.(*Storage).ReceiveBlob: Rename(tmp.Name(), blobPath(ref)) is dominated by the success edges of all writes into tmp, tmp.Sync(), tmp.Close(); nil-error returns are dominated by Rename success",
@@ -36,6 +37,7 @@ func init() {
 			"D-order":             "diskpacked.append: data writes → size check → Sync → index.Set → nil return, each on the success edge of the previous; ReceiveBlob duplicate-ack behind {meta, Stat, size >= offset+size}",
 			"D-reindex-agreement": "pack header writer vs. readers (delimiters, base, bit size, walk-back length), deleted-marker regexp vs. what delete writes, index row codec shared by append/reindex/parseBlobMeta",
 			"D-dele-order":        "diskpacked.delete: header rewrite succeeded before body destruction; RemoveBlobs: join of delete workers precedes the index CommitBatch",
+			"D-walk-extent":       "pack walkers (walkPack's walker call, StreamBlobs' send): an entry is reported only after its body was read in full or its extent was compared with the file size",
 		},
 		Run:       runC03,
 		DesignRef: "DESIGN.md §4 C03",
@@ -57,6 +59,7 @@ func runC03(p *Program, r *Reporter) {
 	c03RuleDOrder(p, r)
 	c03RuleDAgreement(p, r)
 	c03RuleDDeleOrder(p, r)
+	c03RuleDWalkExtent(p, r)
 }
 
 // ---------------------------------------------------------------------------
@@ -1882,5 +1885,144 @@ func c03RuleDDeleOrder(p *Program, r *Reporter) {
 		r.Check(join != nil && Precedes(join, commit), rule, rk+"#join-before-commit", p.Pos(commit.Pos()),
 			"the delete workers are joined (Group.Err/Wait) before the index deletions are committed",
 			"the index deletions are committed before the delete workers are joined: a worker that has not yet looked up its row finds it gone, skips the blob (ErrNotExist is ignored) and the blob stays in the pack, to be resurrected by the next reindex")
+	}
+}
+
+// ---------------------------------------------------------------------------
+// D-walk-extent
+
+// c03ParsedSize: v is the size field parsed from a pack header (result of
+// ParseUint/ParseUintBytes, or the size result of readHeader).
+func c03ParsedSize(p *Program) func(ssa.Value) bool {
+	readHeader := p.Func(c03PkgDP, "", "readHeader")
+	return func(v ssa.Value) bool {
+		ex, ok := v.(*ssa.Extract)
+		if !ok {
+			return false
+		}
+		c, ok := ex.Tuple.(*ssa.Call)
+		if !ok {
+			return false
+		}
+		f := c.Call.StaticCallee()
+		if f == readHeader {
+			return ex.Index == 2
+		}
+		return ex.Index == 0 && (funcIs(f, "strconv", "", "ParseUint") || funcIs(f, "go4.org/strutil", "", "ParseUintBytes"))
+	}
+}
+
+// c03ExtentKnown reports whether, at instruction at of fn, the entry whose
+// header was just parsed is known to be complete: a read of its declared size
+// succeeded, or a dominating comparison relates the declared size to the size
+// of the file.
+func c03ExtentKnown(p *Program, fn *ssa.Function, at ssa.Instruction) (bool, string) {
+	parsed := c03ParsedSize(p)
+	for _, c := range CallsIn(fn, false) {
+		v := c.Value()
+		if v == nil {
+			continue
+		}
+		if !(c.IsStatic("io", "", "ReadFull") || c.IsStatic("io", "", "ReadAtLeast") || c.IsStatic("io", "", "CopyN") || c.IsStatic("bufio", "Reader", "Discard") || c.IsStatic("os", "File", "ReadAt")) {
+			continue
+		}
+		dep := false
+		for _, a := range v.Call.Args {
+			if c03Depends(a, parsed) {
+				dep = true
+			}
+		}
+		if !dep {
+			continue
+		}
+		if ok, _ := SuccessDominates(v, at); ok {
+			return true, "behind a successful " + c.CalleeKey() + " of the header's declared size"
+		}
+	}
+	isFileSize := func(v ssa.Value) bool {
+		c, ok := v.(*ssa.Call)
+		if !ok {
+			return false
+		}
+		if c.Call.IsInvoke() {
+			return c.Call.Method.Name() == "Size" && IsNamed(c.Call.Value.Type(), "io/fs", "FileInfo")
+		}
+		f := c.Call.StaticCallee()
+		if funcIs(f, "os", "File", "Seek") && len(c.Call.Args) == 3 {
+			w, ok := ConstInt(c.Call.Args[2])
+			return ok && w == 2 // io.SeekEnd
+		}
+		return false
+	}
+	for _, f := range FactsAt(at.Block()) {
+		b, ok := f.Cond.(*ssa.BinOp)
+		if !ok {
+			continue
+		}
+		switch b.Op {
+		case token.LSS, token.LEQ, token.GTR, token.GEQ:
+		default:
+			continue
+		}
+		if c03Depends(b.X, isFileSize) && c03Depends(b.Y, parsed) || c03Depends(b.Y, isFileSize) && c03Depends(b.X, parsed) {
+			return true, "behind a comparison of the entry's extent with the pack file's size"
+		}
+	}
+	return false, ""
+}
+
+func c03RuleDWalkExtent(p *Program, r *Reporter) {
+	const rule = "D-walk-extent"
+	r.Floor(rule, 2)
+	const bad = "the entry is reported without its body having been read and without comparing its extent with the file size: after a crash that tore the last append, the torn blob is reported with its declared size (Reindex then writes an index row for it: stat/fetch present a partial blob), and the blind skip over the declared size jumps over entries appended after a restart (Reindex silently omits acknowledged blobs)"
+	// walkPack: calls of its walker parameter
+	wp := p.Func(c03PkgDP, "storage", "walkPack")
+	var walker *ssa.Parameter
+	for _, prm := range wp.Params {
+		if _, ok := prm.Type().Underlying().(*types.Signature); ok {
+			walker = prm
+		}
+	}
+	if walker == nil {
+		brokenf("anchor unresolved: walker parameter of diskpacked.(*storage).walkPack")
+	}
+	n := 0
+	for _, c := range CallsIn(wp, false) {
+		if c.Common().IsInvoke() || originValue(c.Common().Value) != ssa.Value(walker) {
+			continue
+		}
+		n++
+		ok, how := c03ExtentKnown(p, wp, c.Instr)
+		r.Check(ok, rule, FuncKey(wp)+"#walker-call", p.Pos(c.Pos()), "the walker is called "+how, bad)
+	}
+	if n == 0 {
+		r.Violation(rule, FuncKey(wp)+"#walker-call", p.Pos(wp.Pos()), "walkPack never calls its walker")
+	}
+	// StreamBlobs: sends on the destination channel
+	sb := p.Func(c03PkgDP, "storage", "StreamBlobs")
+	n = 0
+	for _, b := range sb.Blocks {
+		for _, in := range b.Instrs {
+			isSend := false
+			switch x := in.(type) {
+			case *ssa.Send:
+				isSend = true
+			case *ssa.Select:
+				for _, st := range x.States {
+					if st.Dir == types.SendOnly {
+						isSend = true
+					}
+				}
+			}
+			if !isSend {
+				continue
+			}
+			n++
+			ok, how := c03ExtentKnown(p, sb, in)
+			r.Check(ok, rule, FuncKey(sb)+"#send", p.Pos(in.Pos()), "the blob is sent "+how, bad)
+		}
+	}
+	if n == 0 {
+		r.Violation(rule, FuncKey(sb)+"#send", p.Pos(sb.Pos()), "StreamBlobs never sends")
 	}
 }
